@@ -462,7 +462,7 @@ func TestC02(t *testing.T) {
 		"2020-12-only keywords are never put into draft-07 documents; $id below an ignored sibling of $ref is not generated",
 		"unsupported $schema values are far from the supported spellings (other drafts, custom meta-schemas, garbage), so widening the accepted spellings raises no alarm",
 		"a loaded document declares no $schema or a draft-07 one (cross-draft referencing is outside the property)")
-	rapid.Check(t, propC02(rec))
+	rapid.Check(t, watched("C02", propC02(rec)))
 }
 
 // propC02 is the property body, shared by TestC02 (rapid) and FuzzC02 (native fuzzing over
